@@ -26,7 +26,7 @@ def bundle(prop, tag, module, only=None, skip=(), why=""):
     seen = set()
     for r_id, doc, fn in list(m.RULES):
         suffix = r_id.split(".", 1)[1]
-        if (only is not None and suffix not in only) or suffix in skip or suffix in seen:
+        if (only is not None and suffix not in only) or suffix in skip or suffix in seen or suffix == "ORDER":
             continue
         # do not re-share what the owner itself only borrows from `prop` (avoids cycles and duplicates)
         if "shared with %s." % prop in doc:
